@@ -36,13 +36,27 @@ GROUP_FILES = {
 }
 
 
+KANI_FILES = {
+    'h_isa': ['main.rs', 'isa.rs', 'sm83.rs', 'bus.rs', 'src_any.rs'],
+    'h_jit': ['main.rs', 'jit.rs', 'x86.rs', 'bus.rs', 'src_any.rs'],
+}
+
+
 def source_key(extra=''):
     h = hashlib.sha256()
     if extra in GROUP_FILES:
         files = [os.path.join(repo(), f) for f in GROUP_FILES[extra]]
     else:
         files = sorted(glob.glob(os.path.join(repo(), 'src', '**', '*.rs'), recursive=True))
-    files += sorted(glob.glob(os.path.join(ROOT, 'kani', 'src', '*.rs'))) + [os.path.join(ROOT, 'kani', 'Cargo.toml'), __file__]
+    ks = KANI_FILES.get(extra)
+    if ks is None:
+        files += sorted(glob.glob(os.path.join(ROOT, 'kani', 'src', '*.rs')))
+    else:
+        files += [os.path.join(ROOT, 'kani', 'src', f) for f in ks]
+    files += [os.path.join(ROOT, 'kani', 'Cargo.toml')]
+    gen = os.path.join(KDIR, 'gen', extra[2:] + '_gen.rs')
+    if os.path.exists(gen):
+        files.append(gen)
     for f in files:
         h.update(f.encode()); h.update(open(f, 'rb').read())
     h.update(extra.encode())
